@@ -1001,8 +1001,28 @@ impl HttpProxy {
     pub fn remove_listener(&mut self, remove: RemoveListener) -> Result<(), ProxyError> {
         let len = self.listeners.len();
         let remove_address = remove.address.into();
-        self.listeners
-            .retain(|_, l| l.borrow().address != remove_address);
+        let registry = &self.registry;
+        self.listeners.retain(|_, l| {
+            let mut listener = l.borrow_mut();
+            if listener.address != remove_address {
+                return true;
+            }
+            // Sessions accepted on this listener keep the listener object alive:
+            // close the listening socket now, otherwise the address keeps
+            // accepting connections nobody will ever serve.
+            if let Some(mut sock) = listener.listener.take() {
+                if let Err(e) = registry.deregister(&mut sock) {
+                    error!(
+                        "{} error deregistering listen socket {:?}: {:?}",
+                        log_module_context!(),
+                        sock,
+                        e
+                    );
+                }
+            }
+            listener.active = false;
+            false
+        });
 
         if !self.listeners.len() < len {
             info!(
